@@ -56,7 +56,11 @@ static void conv_args(KdCtx *k, ConvArgs *a, int kind, int compound, int bd) {
 static void *mk_ref(KdCtx *k, int w, int h, int es, int maxv, int *stride) {
     int fw = w + 7, fh = h + 7;
     *stride = kstride(k, fw, 1);
-    kpad(k, 64, 96);
+    /* reference pictures are padded by (super-block size + 32) samples on every side and motion
+     * vectors are clamped so that block + filter footprint stays inside; the AVX2 horizontal passes
+     * work on row pairs and may touch one more row below the (odd-height) footprint, still inside the
+     * padding: two extra rows + 96 bytes are readable here */
+    kpad(k, 64, 96 + 2 * (size_t)*stride * (size_t)es);
     uint8_t *b = (uint8_t *)kb2(k, fw, fh, *stride, es, 64, kr_range(k, 0, 15), 0);
     kfill2(k, b, fw, fh, *stride, es, 0, maxv);
     return b + (size_t)(3 * *stride + 3) * (size_t)es;
